@@ -4,11 +4,13 @@ package c03
 import (
 	"context"
 	"encoding/json"
-	"net/http/httptest"
-	"runtime/debug"
+	"errors"
 	"fmt"
 	"net"
+	"net/http"
+	"net/http/httptest"
 	"net/url"
+	"runtime/debug"
 	"sort"
 	"strings"
 	"testing"
@@ -35,6 +37,41 @@ type Case struct {
 	Relation     string          `json:"relation"`             // how Requested was derived (label only)
 	ErrStyle     string          `json:"err_style,omitempty"`  // how the storage words its refusals (vkit.Store.refuse)
 	FaultKind    string          `json:"fault_kind,omitempty"` // kind of the injected storage fault on the store_* paths ("" = error)
+
+	// sequences: the fields above are flow 0 (on provider 0); More = further flows that run, one after the other, on the
+	// same long-lived provider instance(s)
+	Break   string `json:"break,omitempty"`   // flow 0: which of its responses go to a ResponseWriter that breaks ("authorize", "callback", "both")
+	Accept  int    `json:"accept,omitempty"`  // ... after this many body bytes
+	Router2 string `json:"router2,omitempty"` // router of provider 1 (a second instance in the same process with its own storage)
+	More    []Flow `json:"more,omitempty"`
+}
+
+// Flow is one authorization flow (authorize -> login -> callback) of a sequence. Client is the registration in force for
+// this flow: it is written into the storage of provider Prov (as a fresh record, the way a storage loads a row again)
+// before the authorization request is sent, while no request is in flight; the oracle judges every response of the flow
+// against it.
+type Flow struct {
+	Prov         int             `json:"prov,omitempty"`
+	Client       vkit.ClientSpec `json:"client"`
+	Change       string          `json:"change,omitempty"`       // how Client was derived from the previous registration of that id on that provider (label)
+	Unregistered bool            `json:"unregistered,omitempty"` // the client id was REMOVED from the storage before this flow (Client = its last registration)
+	Requested    string          `json:"requested"`
+	OmitURI      bool            `json:"omit_uri,omitempty"`
+	ResponseType string          `json:"response_type"`
+	ResponseMode string          `json:"response_mode,omitempty"`
+	State        string          `json:"state,omitempty"`
+	ErrPath      string          `json:"err_path"`
+	ObjectURI    string          `json:"object_uri,omitempty"`
+	Relation     string          `json:"relation"`
+	FaultKind    string          `json:"fault_kind,omitempty"`
+	Break        string          `json:"break,omitempty"`
+	Accept       int             `json:"accept,omitempty"`
+}
+
+func (c Case) flows() []Flow {
+	f0 := Flow{Client: c.Client, Requested: c.Requested, OmitURI: c.OmitURI, ResponseType: c.ResponseType, ResponseMode: c.ResponseMode, State: c.State,
+		ErrPath: c.ErrPath, ObjectURI: c.ObjectURI, Relation: c.Relation, FaultKind: c.FaultKind, Break: c.Break, Accept: c.Accept}
+	return append([]Flow{f0}, c.More...)
 }
 
 // ---- generators ---------------------------------------------------------------
@@ -190,16 +227,26 @@ func genRequested(t *rapid.T, c *vkit.ClientSpec) (string, string) {
 	return base, "registered"
 }
 
-func genCase(t *rapid.T) Case {
-	var c Case
-	c.Router = rapid.SampledFrom([]string{"provider", "legacy"}).Draw(t, "router")
-	cl := &c.Client
-	cl.ID = "client-a"
-	cl.Secret = "secret-a"
-	cl.AppType = rapid.SampledFrom([]string{"web", "web", "user_agent", "native", "native"}).Draw(t, "apptype")
+var errPaths = []string{
+	"none", "none", "none", "none", "none", "none",
+	"bad_form", "max_age", "unknown_client", "no_client", "no_scope", "bad_prompt", "bad_hint", "prompt_none",
+	"store_create_fail", "store_client_fail", "store_client_fail_cb", "store_code_fail", "no_login", "unknown_callback",
+	"reqobj_same", "reqobj_other_uri", "reqobj_foreign", "reqobj_unsupported", "reqobj_garbage",
+}
+
+var (
+	appTypes        = []string{"web", "web", "user_agent", "native", "native"}
+	responseTypeSet = [][]string{{"code"}, {"code", "id_token", "id_token token"}, {"id_token", "id_token token"}, {"code", "id_token token"}}
+)
+
+func genClient(t *rapid.T, id string) vkit.ClientSpec {
+	var cl vkit.ClientSpec
+	cl.ID = id
+	cl.Secret = "secret-" + strings.TrimPrefix(id, "client-")
+	cl.AppType = rapid.SampledFrom(appTypes).Draw(t, "apptype")
 	cl.AuthMethod = rapid.SampledFrom([]string{"client_secret_basic", "none", "client_secret_post", "private_key_jwt"}).Draw(t, "authmethod")
 	cl.DevMode = rapid.IntRange(0, 4).Draw(t, "devmode") == 0
-	cl.ResponseTypes = rapid.SampledFrom([][]string{{"code"}, {"code", "id_token", "id_token token"}, {"id_token", "id_token token"}, {"code", "id_token token"}}).Draw(t, "rts")
+	cl.ResponseTypes = rapid.SampledFrom(responseTypeSet).Draw(t, "rts")
 	cl.GrantTypes = []string{vkit.GCode, vkit.GImpl}
 	cl.Keys = map[string]string{"ka": "rsa2"}
 	n := rapid.IntRange(1, 4).Draw(t, "nreg")
@@ -219,23 +266,120 @@ func genCase(t *rapid.T) Case {
 		// globs present in the registration data but the client did NOT opt in
 		cl.RedirectGlobs = []string{genGlob(t, "dglob")}
 	}
+	return cl
+}
+
+func cloneSpec(c vkit.ClientSpec) vkit.ClientSpec {
+	c.RedirectURIs = append([]string(nil), c.RedirectURIs...)
+	c.RedirectGlobs = append([]string(nil), c.RedirectGlobs...)
+	c.ResponseTypes = append([]string(nil), c.ResponseTypes...)
+	c.GrantTypes = append([]string(nil), c.GrantTypes...)
+	k := map[string]string{}
+	for a, b := range c.Keys {
+		k[a] = b
+	}
+	c.Keys = k
+	return c
+}
+
+// changeKinds: what an administrator does to a registration between two flows
+var changeKinds = []string{"same", "same", "remove_uri", "remove_uri", "remove_uri", "add_uri", "replace_uri", "replace_uri", "replace_all",
+	"globs_switch", "globs_switch", "glob_swap", "dev_switch", "dev_switch", "apptype", "response_types", "unregister"}
+
+// genChange derives the next registration of a client id from the one in force (a deep copy is changed).
+func genChange(t *rapid.T, cur vkit.ClientSpec) (vkit.ClientSpec, string, bool) {
+	cl := cloneSpec(cur)
+	kind := rapid.SampledFrom(changeKinds).Draw(t, "change")
+	switch kind {
+	case "remove_uri":
+		if len(cl.RedirectURIs) > 1 {
+			i := rapid.IntRange(0, len(cl.RedirectURIs)-1).Draw(t, "rmidx")
+			cl.RedirectURIs = append(cl.RedirectURIs[:i], cl.RedirectURIs[i+1:]...)
+			break
+		}
+		kind = "replace_uri"
+		fallthrough
+	case "replace_uri":
+		i := rapid.IntRange(0, len(cl.RedirectURIs)-1).Draw(t, "rpidx")
+		u := genRegistered(t, "rp")
+		if !contains(cl.RedirectURIs, u) {
+			cl.RedirectURIs[i] = u
+		}
+	case "add_uri":
+		u := genRegistered(t, "add")
+		if !contains(cl.RedirectURIs, u) {
+			cl.RedirectURIs = append(cl.RedirectURIs, u)
+		}
+	case "replace_all":
+		cl.RedirectURIs = nil
+		n := rapid.IntRange(1, 3).Draw(t, "nreg")
+		for i := 0; i < n; i++ {
+			u := genRegistered(t, fmt.Sprintf("reg%d", i))
+			if !contains(cl.RedirectURIs, u) {
+				cl.RedirectURIs = append(cl.RedirectURIs, u)
+			}
+		}
+	case "globs_switch":
+		cl.UseGlobs = !cl.UseGlobs
+		if cl.UseGlobs && len(cl.RedirectGlobs) == 0 {
+			cl.RedirectGlobs = []string{genGlob(t, "glob0")}
+		}
+	case "glob_swap":
+		cl.RedirectGlobs = []string{genGlob(t, "glob0")}
+	case "dev_switch":
+		cl.DevMode = !cl.DevMode
+	case "apptype":
+		cl.AppType = rapid.SampledFrom(appTypes).Draw(t, "apptype")
+	case "response_types":
+		cl.ResponseTypes = rapid.SampledFrom(responseTypeSet).Draw(t, "rts")
+	case "unregister":
+		return cl, kind, true
+	}
+	return cl, kind, false
+}
+
+func genResponseType(t *rapid.T, cl *vkit.ClientSpec) string {
+	if rapid.IntRange(0, 7).Draw(t, "rtreg") > 0 {
+		return rapid.SampledFrom(cl.ResponseTypes).Draw(t, "rt")
+	}
+	return rapid.SampledFrom([]string{"code", "id_token", "id_token token", "token", ""}).Draw(t, "rt")
+}
+
+var responseModes = []string{"", "", "query", "fragment", "form_post"}
+
+func genBreak(t *rapid.T) (string, int) {
+	if rapid.IntRange(0, 3).Draw(t, "broken") > 0 {
+		return "", 0
+	}
+	return rapid.SampledFrom([]string{"callback", "callback", "both", "authorize"}).Draw(t, "break"),
+		rapid.SampledFrom([]int{0, 0, 0, 1, 40, 150, 200, 400}).Draw(t, "accept")
+}
+
+func genCase(t *rapid.T) Case {
+	var c Case
+	c.Router = rapid.SampledFrom([]string{"provider", "legacy"}).Draw(t, "router")
+	c.Client = genClient(t, "client-a")
+	cl := &c.Client
+	nMore := 0
+	if rapid.Bool().Draw(t, "sequence") {
+		nMore = rapid.IntRange(1, 3).Draw(t, "nmore")
+	}
+	seq := nMore > 0
 	c.Requested, c.Relation = genRequested(t, cl)
+	if seq && c.Relation != "registered" && rapid.Bool().Draw(t, "seqreg") {
+		// flows of a sequence lean towards requests that get through: what a later flow can inherit is what an earlier one left
+		c.Requested, c.Relation = rapid.SampledFrom(cl.RedirectURIs).Draw(t, "base"), "registered"
+	}
 	if c.Relation == "empty" && rapid.Bool().Draw(t, "omit") {
 		c.OmitURI = true
 	}
-	if rapid.IntRange(0, 7).Draw(t, "rtreg") > 0 {
-		c.ResponseType = rapid.SampledFrom(cl.ResponseTypes).Draw(t, "rt")
-	} else {
-		c.ResponseType = rapid.SampledFrom([]string{"code", "id_token", "id_token token", "token", ""}).Draw(t, "rt")
-	}
-	c.ResponseMode = rapid.SampledFrom([]string{"", "", "query", "fragment", "form_post"}).Draw(t, "rm")
+	c.ResponseType = genResponseType(t, cl)
+	c.ResponseMode = rapid.SampledFrom(responseModes).Draw(t, "rm")
 	c.State = rapid.SampledFrom([]string{"", "xyz", "a b&c=d"}).Draw(t, "state")
-	c.ErrPath = rapid.SampledFrom([]string{
-		"none", "none", "none", "none", "none", "none",
-		"bad_form", "max_age", "unknown_client", "no_client", "no_scope", "bad_prompt", "bad_hint", "prompt_none",
-		"store_create_fail", "store_client_fail", "store_client_fail_cb", "store_code_fail", "no_login", "unknown_callback",
-		"reqobj_same", "reqobj_other_uri", "reqobj_foreign", "reqobj_unsupported", "reqobj_garbage",
-	}).Draw(t, "errpath")
+	c.ErrPath = rapid.SampledFrom(errPaths).Draw(t, "errpath")
+	if seq && c.ErrPath != "none" && rapid.Bool().Draw(t, "seqnoerr") {
+		c.ErrPath = "none"
+	}
 	if rapid.Bool().Draw(t, "errstyled") {
 		c.ErrStyle = rapid.SampledFrom(vkit.ErrStyles).Draw(t, "errstyle")
 	}
@@ -244,6 +388,111 @@ func genCase(t *rapid.T) Case {
 	}
 	if strings.HasPrefix(c.ErrPath, "reqobj") {
 		c.ObjectURI = rapid.SampledFrom([]string{c.Requested, "https://evil.example.net/cb", cl.RedirectURIs[0], "http://localhost:1/cb"}).Draw(t, "objuri")
+	}
+	if !seq {
+		return c
+	}
+	c.Break, c.Accept = genBreak(t)
+
+	// ---- further flows on the same provider instance(s)
+	type slot struct {
+		reg  vkit.ClientSpec
+		gone bool
+	}
+	regs := map[string]*slot{"0/client-a": {reg: c.Client}}
+	hist := map[string][]string{} // client id -> every URI that was ever registered for it anywhere or requested in its name
+	note := func(id string, us ...string) {
+		for _, u := range us {
+			if u != "" && !contains(hist[id], u) {
+				hist[id] = append(hist[id], u)
+			}
+		}
+	}
+	note("client-a", c.Client.RedirectURIs...)
+	note("client-a", c.Requested)
+	prev := Flow{ResponseType: c.ResponseType, ResponseMode: c.ResponseMode}
+	for i := 0; i < nMore; i++ {
+		var f Flow
+		if rapid.IntRange(0, 4).Draw(t, "prov2") == 0 {
+			f.Prov = 1
+			if c.Router2 == "" {
+				c.Router2 = rapid.SampledFrom([]string{"provider", "legacy"}).Draw(t, "router2")
+			}
+		}
+		id := rapid.SampledFrom([]string{"client-a", "client-a", "client-c"}).Draw(t, "clientid")
+		key := fmt.Sprintf("%d/%s", f.Prov, id)
+		s := regs[key]
+		switch {
+		case s == nil:
+			// first use of this id on this provider: a registration of its own (the other provider may know the same id with other URIs)
+			f.Client, f.Change = genClient(t, id), "new"
+			regs[key] = &slot{reg: f.Client}
+		case s.gone:
+			f.Client, f.Change = cloneSpec(s.reg), "reregister"
+			s.gone = false
+		default:
+			f.Client, f.Change, f.Unregistered = genChange(t, s.reg)
+			s.reg, s.gone = f.Client, f.Unregistered
+		}
+		fc := &f.Client
+		// the requested URI: from the registration in force (as in a single flow), or from the history of this client id
+		// (a URI an earlier registration, or the other provider's registration, held; a string an earlier flow requested),
+		// or a URI of the other generated client
+		var stale, foreign []string
+		for _, u := range hist[id] {
+			if !contains(fc.RedirectURIs, u) {
+				stale = append(stale, u)
+			}
+		}
+		if id == "client-a" {
+			foreign = hist["client-c"]
+		} else {
+			foreign = hist["client-a"]
+		}
+		src := rapid.SampledFrom([]string{"current", "current", "history", "history", "history", "other-client"}).Draw(t, "urisrc")
+		switch {
+		case src == "history" && len(stale) > 0:
+			f.Requested, f.Relation = rapid.SampledFrom(stale).Draw(t, "stale"), "history-not-in-force"
+		case src == "history" && len(hist[id]) > 0:
+			f.Requested, f.Relation = rapid.SampledFrom(hist[id]).Draw(t, "hist"), "history"
+		case src == "other-client" && len(foreign) > 0:
+			f.Requested, f.Relation = rapid.SampledFrom(foreign).Draw(t, "foreign"), "other-client-uri"
+		default:
+			f.Requested, f.Relation = genRequested(t, fc)
+			if f.Relation == "empty" && rapid.Bool().Draw(t, "omit") {
+				f.OmitURI = true
+			}
+		}
+		// response type and mode: often those of the previous flow (same URI, other response type; same mode, other client)
+		if rapid.Bool().Draw(t, "samert") {
+			f.ResponseType = prev.ResponseType
+		} else {
+			f.ResponseType = genResponseType(t, fc)
+		}
+		if rapid.IntRange(0, 2).Draw(t, "samerm") > 0 {
+			f.ResponseMode = prev.ResponseMode
+		} else {
+			f.ResponseMode = rapid.SampledFrom(responseModes).Draw(t, "rm")
+		}
+		f.State = rapid.SampledFrom([]string{"", "xyz", "a b&c=d", "s-" + fmt.Sprint(i+1)}).Draw(t, "state")
+		f.ErrPath = "none"
+		if rapid.IntRange(0, 2).Draw(t, "witherr") == 0 {
+			f.ErrPath = rapid.SampledFrom(errPaths).Draw(t, "errpath")
+			if f.ErrPath == "reqobj_unsupported" { // a property of the provider, decided by flow 0
+				f.ErrPath = "reqobj_same"
+			}
+		}
+		if strings.HasPrefix(f.ErrPath, "store_") {
+			f.FaultKind = rapid.SampledFrom([]string{"", "deadline", "oidc", "oidc-wrapped"}).Draw(t, "faultkind")
+		}
+		if strings.HasPrefix(f.ErrPath, "reqobj") {
+			f.ObjectURI = rapid.SampledFrom([]string{f.Requested, "https://evil.example.net/cb", fc.RedirectURIs[0], "http://localhost:1/cb"}).Draw(t, "objuri")
+		}
+		f.Break, f.Accept = genBreak(t)
+		note(id, fc.RedirectURIs...)
+		note(id, f.Requested, f.ObjectURI)
+		prev = f
+		c.More = append(c.More, f)
 	}
 	return c
 }
@@ -281,7 +530,6 @@ func globMatch(pat, s string) bool {
 	}
 	return globMatch(pat[1:], s[1:])
 }
-
 
 type loopInfo struct {
 	ok        bool // http/https URL on a loopback host
@@ -419,19 +667,34 @@ func sameTarget(location, requested string) bool {
 
 // ---- execution -----------------------------------------------------------------
 
-func formAction(body []byte) (string, bool) {
+// pageTargets lists, in document order, every place the HTML page can send the user agent to: the action of EVERY form
+// (document.forms[0] is whatever comes first in the bytes the user agent received, not what this flow rendered), formaction
+// overrides, hyperlinks / embedded resources / base URLs, and meta refreshes. Tags the writer cut off are not part of the tree.
+func pageTargets(body []byte) (targets []string, forms int) {
 	doc, err := html.Parse(strings.NewReader(string(body)))
 	if err != nil {
-		return "", false
+		return nil, 0
 	}
-	var action string
-	var found bool
 	var walk func(n *html.Node)
 	walk = func(n *html.Node) {
-		if n.Type == html.ElementNode && n.Data == "form" {
+		if n.Type == html.ElementNode {
+			if n.Data == "form" {
+				forms++
+			}
+			refresh := false
 			for _, a := range n.Attr {
-				if a.Key == "action" {
-					action, found = a.Val, true
+				if n.Data == "meta" && a.Key == "http-equiv" && strings.EqualFold(strings.TrimSpace(a.Val), "refresh") {
+					refresh = true
+				}
+			}
+			for _, a := range n.Attr {
+				switch {
+				case a.Key == "action" && n.Data == "form", a.Key == "formaction", a.Key == "href", a.Key == "src":
+					targets = append(targets, a.Val)
+				case a.Key == "content" && refresh:
+					if i := strings.Index(strings.ToLower(a.Val), "url="); i >= 0 {
+						targets = append(targets, strings.Trim(strings.TrimSpace(a.Val[i+4:]), `'"`))
+					}
 				}
 			}
 		}
@@ -440,53 +703,214 @@ func formAction(body []byte) (string, bool) {
 		}
 	}
 	walk(doc)
-	return action, found
+	return targets, forms
 }
 
 const issuer = "https://op.example.com"
 
-func requestObject(c Case, signer *vkit.ClientSpec, kid, key string) string {
-	m := map[string]any{"iss": signer.ID, "aud": []string{issuer}, "client_id": signer.ID, "response_type": c.ResponseType,
-		"redirect_uri": c.ObjectURI, "scope": "openid", "iat": time.Now().Unix(), "exp": time.Now().Add(time.Hour).Unix()}
+func requestObject(f Flow, signer *vkit.ClientSpec, kid, key string) string {
+	m := map[string]any{"iss": signer.ID, "aud": []string{issuer}, "client_id": signer.ID, "response_type": f.ResponseType,
+		"redirect_uri": f.ObjectURI, "scope": "openid", "iat": time.Now().Unix(), "exp": time.Now().Add(time.Hour).Unix()}
 	b, _ := json.Marshal(m)
 	return vkit.MustSignJWT("RS256", kid, vkit.Key(key), b)
 }
 
+// brokenWriter is the ResponseWriter of a user agent that went away (http.TimeoutHandler after its timeout, a reset stream,
+// a closed connection): it takes `accept` body bytes and fails from then on. Like net/http it sends the header map as it is
+// at the first WriteHeader / Write; later changes of the map never reach anybody.
+type brokenWriter struct {
+	hdr, sent http.Header
+	status    int
+	body      []byte
+	accept    int
+	failed    bool
+}
+
+func (w *brokenWriter) Header() http.Header { return w.hdr }
+func (w *brokenWriter) WriteHeader(code int) {
+	if w.status == 0 {
+		w.status = code
+		w.sent = w.hdr.Clone()
+	}
+}
+func (w *brokenWriter) Write(p []byte) (int, error) {
+	if w.status == 0 {
+		w.WriteHeader(200)
+	}
+	if !w.failed && len(p) <= w.accept {
+		w.accept -= len(p)
+		w.body = append(w.body, p...)
+		return len(p), nil
+	}
+	n := 0
+	if !w.failed {
+		n = w.accept
+		w.body = append(w.body, p[:n]...)
+	}
+	w.accept, w.failed = 0, true
+	return n, errors.New("write tcp: broken pipe")
+}
+
+// env is one long-lived provider instance with its storage.
+type env struct {
+	st  *vkit.Store
+	sut *vkit.SUT
+	ag  *vkit.Agent
+}
+
+func otherClient() *vkit.ClientSpec {
+	return &vkit.ClientSpec{ID: "client-b", Secret: "secret-b", AppType: "web", AuthMethod: "client_secret_basic", GrantTypes: []string{vkit.GCode},
+		ResponseTypes: []string{"code", "id_token", "id_token token"}, RedirectURIs: []string{"https://evil.example.net/cb", "https://other.example.net/cb"}, Keys: map[string]string{"kb": "rsa3"}}
+}
+
+func newEnv(router, errStyle string, reqObj bool) *env {
+	st := vkit.NewStore([]*vkit.ClientSpec{otherClient()}, vkit.SignKeySpec{KeyName: "rsa1", Alg: "RS256", KID: "sig1"}, vkit.StorePolicy{ErrStyle: errStyle})
+	spec := vkit.DefaultProviderSpec(router)
+	spec.ReqObj = reqObj
+	sut := vkit.MustBuild(spec, st)
+	return &env{st: st, sut: sut, ag: vkit.NewAgent(sut)}
+}
+
+// get sends one GET to the provider; broken: the response goes to a brokenWriter that takes accept body bytes.
+func (e *env) get(target string, broken bool, accept int) *vkit.Resp {
+	if !broken {
+		return e.ag.Get(target, nil, nil)
+	}
+	r := httptest.NewRequest("GET", "http://"+e.sut.Host+target, nil)
+	r.Host = e.sut.Host
+	w := &brokenWriter{hdr: http.Header{}, accept: accept}
+	resp := &vkit.Resp{Req: e.st.BeginRequest(), JournalAtWrite: -1}
+	func() {
+		defer func() {
+			if p := recover(); p != nil {
+				resp.Panic = p
+				resp.Stack = string(debug.Stack())
+			}
+		}()
+		e.sut.Handler.ServeHTTP(w, r)
+	}()
+	resp.Status, resp.Header, resp.Body = w.status, w.sent, w.body
+	if resp.Header == nil {
+		resp.Header = w.hdr
+	}
+	if resp.Status == 0 && resp.Panic == nil {
+		resp.Status = 200
+	}
+	resp.JournalAtEnd = e.st.JournalLen()
+	return resp
+}
+
 func run(c Case) *vkit.Result {
 	res := &vkit.Result{}
-	cl := c.Client
-	other := &vkit.ClientSpec{ID: "client-b", Secret: "secret-b", AppType: "web", AuthMethod: "client_secret_basic", GrantTypes: []string{vkit.GCode},
-		ResponseTypes: []string{"code", "id_token", "id_token token"}, RedirectURIs: []string{"https://evil.example.net/cb", "https://other.example.net/cb"}, Keys: map[string]string{"kb": "rsa3"}}
-	pol := vkit.StorePolicy{ErrStyle: c.ErrStyle}
-	fk := c.FaultKind
+	flows := c.flows()
+	envs := map[int]*env{}
+	var keys []string
+	brokenFormPost := false // an earlier flow's form_post page went to a writer that broke
+	for i, f := range flows {
+		e := envs[f.Prov]
+		if e == nil {
+			router, reqObj := c.Router, c.ErrPath != "reqobj_unsupported"
+			if f.Prov != 0 {
+				router, reqObj = c.Router2, true
+				if router == "" {
+					router = "provider"
+				}
+			}
+			e = newEnv(router, c.ErrStyle, reqObj)
+			envs[f.Prov] = e
+			if len(flows) > 1 {
+				res.Label("seq:router:" + router)
+			}
+		}
+		out := runFlow(res, e, f, i)
+		keys = append(keys, out.key)
+		if out.nonTrivial {
+			res.NonTrivial = true
+		}
+		if i == 0 {
+			res.Info = out.info
+		}
+		if len(flows) > 1 {
+			res.Label("seq:change:"+f.Change, "seq:rel:"+f.Relation, fmt.Sprintf("seq:flow%d:path:%s", i, out.path))
+			if i > 0 {
+				res.NonTrivial = true
+				keys[i] = fmt.Sprintf("p%d|%s|%s|%s", f.Prov, f.Client.ID, f.Change, keys[i])
+				if f.Prov == flows[i-1].Prov && f.Client.ID == flows[i-1].Client.ID {
+					res.Label("seq:same-client-as-previous")
+				} else if f.Prov != flows[i-1].Prov && f.Client.ID == flows[i-1].Client.ID {
+					res.Label("seq:same-id-other-provider")
+				} else {
+					res.Label("seq:other-client")
+				}
+				if f.Relation == "history-not-in-force" {
+					res.Label(fmt.Sprintf("seq:stale-uri:v=%d", out.verdict))
+				}
+				if brokenFormPost && out.path == "callback-form" {
+					res.Label("seq:form_post-after-broken-form_post")
+				}
+			}
+			if f.Break != "" {
+				res.Label("seq:break:" + f.Break)
+				if (f.Break == "callback" || f.Break == "both") && out.path == "callback-form" {
+					brokenFormPost = true
+				}
+			}
+		}
+	}
+	if len(flows) > 1 {
+		res.Label(fmt.Sprintf("seq:len=%d", len(flows)))
+	} else {
+		res.Label("seq:len=1")
+	}
+	res.Key = strings.Join(keys, " ;; ")
+	return res
+}
+
+type flowOut struct {
+	key, path  string
+	verdict    int
+	nonTrivial bool
+	info       map[string]any
+}
+
+// runFlow puts the flow's registration in force, drives authorize -> login -> callback on the long-lived provider e and
+// judges every response against that registration.
+func runFlow(res *vkit.Result, e *env, f Flow, idx int) flowOut {
+	cl := cloneSpec(f.Client)
+	st, sut := e.st, e.sut
+	other := otherClient()
+	// no request is in flight: the storage's records can be replaced without a race. A fresh record every time, the way a
+	// storage that reads its database hands out a new object per lookup.
+	if f.Unregistered {
+		delete(st.Clients, cl.ID)
+	} else {
+		reg := cloneSpec(cl)
+		st.Clients[cl.ID] = &reg
+	}
+	st.Policy.PromptNoneLoginError = f.ErrPath == "prompt_none"
+	st.SetFaults()
+	defer st.SetFaults()
+	fk := f.FaultKind
 	if fk == "" {
 		fk = "error"
 	}
-	if c.ErrPath == "prompt_none" {
-		pol.PromptNoneLoginError = true
-	}
-	st := vkit.NewStore([]*vkit.ClientSpec{&cl, other}, vkit.SignKeySpec{KeyName: "rsa1", Alg: "RS256", KID: "sig1"}, pol)
-	spec := vkit.DefaultProviderSpec(c.Router)
-	if c.ErrPath == "reqobj_unsupported" {
-		spec.ReqObj = false
-	}
-	sut := vkit.MustBuild(spec, st)
-	ag := vkit.NewAgent(sut)
+	brokenAuth := f.Break == "authorize" || f.Break == "both"
+	brokenCB := f.Break == "callback" || f.Break == "both"
 
-	q := url.Values{"client_id": {cl.ID}, "response_type": {c.ResponseType}, "scope": {"openid profile"}}
-	if !c.OmitURI {
-		q.Set("redirect_uri", c.Requested)
+	q := url.Values{"client_id": {cl.ID}, "response_type": {f.ResponseType}, "scope": {"openid profile"}}
+	if !f.OmitURI {
+		q.Set("redirect_uri", f.Requested)
 	}
-	if c.ResponseMode != "" {
-		q.Set("response_mode", c.ResponseMode)
+	if f.ResponseMode != "" {
+		q.Set("response_mode", f.ResponseMode)
 	}
-	if c.State != "" {
-		q.Set("state", c.State)
+	if f.State != "" {
+		q.Set("state", f.State)
 	}
 	rawExtra := ""
-	candidates := []string{c.Requested}
+	candidates := []string{f.Requested}
 	objectInPlay := false
-	switch c.ErrPath {
+	switch f.ErrPath {
 	case "bad_form":
 		rawExtra = "&bad=%zz"
 	case "max_age":
@@ -508,13 +932,13 @@ func run(c Case) *vkit.Result {
 	case "store_client_fail":
 		st.SetFaults(vkit.Fault{Method: "GetClientByClientID", Kind: fk})
 	case "reqobj_same", "reqobj_other_uri", "reqobj_unsupported":
-		q.Set("request", requestObject(c, &cl, "ka", "rsa2"))
-		candidates = append(candidates, c.ObjectURI)
+		q.Set("request", requestObject(f, &cl, "ka", "rsa2"))
+		candidates = append(candidates, f.ObjectURI)
 		objectInPlay = true
 	case "reqobj_foreign":
 		// signed by another registered client with its own key and kid, naming itself
-		q.Set("request", requestObject(c, other, "kb", "rsa3"))
-		candidates = append(candidates, c.ObjectURI)
+		q.Set("request", requestObject(f, other, "kb", "rsa3"))
+		candidates = append(candidates, f.ObjectURI)
 		objectInPlay = true
 	case "reqobj_garbage":
 		q.Set("request", "e30.bnVsbA.e30")
@@ -522,71 +946,48 @@ func run(c Case) *vkit.Result {
 	}
 
 	var responses []*vkit.Resp
-	authResp := ag.Get(sut.Paths["authorization"]+"?"+q.Encode()+rawExtra, nil, nil)
+	authResp := e.get(sut.Paths["authorization"]+"?"+q.Encode()+rawExtra, brokenAuth, f.Accept)
 	responses = append(responses, authResp)
 	reqID, toLogin := vkit.LoginRequestID(authResp)
 	var final *vkit.Resp
 	if toLogin {
-		if c.ErrPath != "no_login" {
+		if f.ErrPath != "no_login" {
 			st.Login(reqID, "u1")
 		}
-		switch c.ErrPath {
+		switch f.ErrPath {
 		case "store_code_fail":
 			st.SetFaults(vkit.Fault{Method: "SaveAuthCode", Kind: fk}, vkit.Fault{Method: "CreateAccessToken", Kind: fk})
 		case "store_client_fail_cb":
 			st.SetFaults(vkit.Fault{Method: "GetClientByClientID", Kind: fk})
 		}
 		id := reqID
-		if c.ErrPath == "unknown_callback" {
+		if f.ErrPath == "unknown_callback" {
 			id = "ar-999"
 		}
-		final = ag.Callback(id)
+		final = e.get(sut.CallbackPath()+"?"+url.Values{"id": {id}}.Encode(), brokenCB, f.Accept)
 		responses = append(responses, final)
 	}
 
 	// the URI the stored request carries is what the callback will use: the effective requested URI
-	effective := c.Requested
+	effective := f.Requested
 	if ar, ok := st.AuthReqSnapshot(reqID); ok && toLogin {
 		effective = ar.RedirectURI
 		if !contains(candidates, effective) {
-			res.Fail("C03:stored-uri-not-requested", "auth request stored with redirect_uri %q which was neither in the query nor in the request object", effective)
+			res.Fail("C03:stored-uri-not-requested", "flow %d: auth request stored with redirect_uri %q which was neither in the query nor in the request object", idx, effective)
 		}
 	}
 
-	clientKnown := c.ErrPath != "unknown_client" && c.ErrPath != "no_client"
-	verdictQ, reasonQ := allowed(&cl, c.Requested, c.ResponseType)
-	if c.OmitURI {
+	clientKnown := f.ErrPath != "unknown_client" && f.ErrPath != "no_client" && !f.Unregistered
+	verdictQ, reasonQ := allowed(&cl, f.Requested, f.ResponseType)
+	if f.OmitURI {
 		verdictQ, reasonQ = -1, "omitted"
 	}
 	if !clientKnown {
 		verdictQ, reasonQ = -1, "no-client"
 	}
 
-	for i, r := range responses {
-		if r.Panic != nil {
-			res.Fail("C03:panic@"+r.PanicFrame(), "panic: %v", r.Panic)
-			continue
-		}
-		target := ""
-		if r.IsRedirect() {
-			target = r.Location()
-			if i == 0 && toLogin {
-				continue // redirect to the OP's own login UI
-			}
-		} else if r.Status == 200 && strings.Contains(r.Header.Get("Content-Type")+string(r.Body), "<form") {
-			if a, ok := formAction(r.Body); ok {
-				target = a
-				res.Label("form_post-delivery")
-			}
-		}
-		if target == "" {
-			continue
-		}
-		if target == "#ZgotmplZ" {
-			// html/template refused to emit the URI as an action: inert, nothing is sent anywhere
-			res.Label("form-action-neutralised")
-			continue
-		}
+	// judge: where does this response send the user agent?
+	judge := func(i int, r *vkit.Resp, target, fpUnrequested string) {
 		// several candidates can denote the same target (a fragment-mode response replaces the fragment of the URI): the
 		// response is judged against the most favourable one - it is indistinguishable from a delivery to that URI
 		matched, v, why := "", -2, ""
@@ -594,55 +995,106 @@ func run(c Case) *vkit.Result {
 			if !sameTarget(target, cand) {
 				continue
 			}
-			cv, cwhy := allowed(&cl, cand, c.ResponseType)
+			cv, cwhy := allowed(&cl, cand, f.ResponseType)
 			if cv > v {
 				matched, v, why = cand, cv, cwhy
 			}
 		}
 		if v == -2 {
-			res.Fail("C03:redirect-to-unrequested", "response %d sends the user agent to %q, which is neither the login UI nor the requested redirect_uri %q", i, target, candidates)
-			continue
+			tv, twhy := allowed(&cl, target, f.ResponseType)
+			if !clientKnown {
+				tv, twhy = -1, "no-client"
+			}
+			res.Fail(fpUnrequested, "flow %d response %d sends the user agent to %q, which is neither the login UI nor the redirect_uri requested in this flow %q (for the client of this flow that target is: %d %s; registration in force: %+v)", idx, i, target, candidates, tv, twhy, cl)
+			return
 		}
 		if !clientKnown {
 			v, why = -1, "no-client"
 		}
 		res.Label("delivered:" + why)
 		if v < 0 {
-			res.Fail("C03:redirect-to-unregistered:"+why, "response %d (status %d) sends the user agent to %q; redirect_uri %q is not acceptable for client %+v (%s)", i, r.Status, target, matched, cl, why)
+			res.Fail("C03:redirect-to-unregistered:"+why, "flow %d response %d (status %d) sends the user agent to %q; redirect_uri %q is not acceptable for client %+v (%s)", idx, i, r.Status, target, matched, cl, why)
+		}
+	}
+	for i, r := range responses {
+		if r.Panic != nil {
+			res.Fail("C03:panic@"+r.PanicFrame(), "panic: %v", r.Panic)
+			continue
+		}
+		if r.IsRedirect() {
+			if i == 0 && toLogin {
+				continue // redirect to the OP's own login UI
+			}
+			if target := r.Location(); target != "" {
+				judge(i, r, target, "C03:redirect-to-unrequested")
+			}
+			continue
+		}
+		if !strings.Contains(string(r.Body), "<") {
+			continue
+		}
+		// a page: EVERY form in it (and whatever else in it navigates), wherever in the bytes it stands
+		targets, forms := pageTargets(r.Body)
+		if forms > 0 {
+			res.Label("form_post-delivery")
+		}
+		if forms > 1 {
+			res.Label("page-with-several-forms")
+		}
+		for k, target := range targets {
+			if target == "" {
+				continue
+			}
+			if target == "#ZgotmplZ" {
+				// html/template refused to emit the URI as an action: inert, nothing is sent anywhere
+				res.Label("form-action-neutralised")
+				continue
+			}
+			fp := "C03:redirect-to-unrequested"
+			if len(targets) > 1 {
+				fp = fmt.Sprintf("C03:page-target-unrequested:%d-of-%d", k+1, len(targets))
+			}
+			judge(i, r, target, fp)
 		}
 	}
 
 	// refused requests are answered directly, never with a redirect (not even to the login UI)
 	allRefused := verdictQ < 0
-	if objectInPlay && c.ObjectURI != "" {
-		vo, _ := allowed(&cl, c.ObjectURI, c.ResponseType)
+	if objectInPlay && f.ObjectURI != "" && clientKnown {
+		vo, _ := allowed(&cl, f.ObjectURI, f.ResponseType)
 		allRefused = allRefused && vo < 0
 	}
 	if allRefused {
 		res.Label("must-refuse", "refuse:"+reasonQ)
 		if authResp.IsRedirect() {
-			res.Fail("C03:refused-but-redirected:"+reasonQ, "authorize answered %d to %q although redirect_uri %q must be refused (%s)", authResp.Status, authResp.Location(), c.Requested, reasonQ)
+			res.Fail("C03:refused-but-redirected:"+reasonQ, "flow %d: authorize answered %d to %q although redirect_uri %q must be refused (%s) under the registration in force %+v (unregistered=%v)", idx, authResp.Status, authResp.Location(), f.Requested, reasonQ, cl, f.Unregistered)
 		}
 	}
 
 	// completeness: an acceptable, fault-free code/implicit request reaches the redirect URI
-	_, perr := url.Parse(c.Requested)
+	_, perr := url.Parse(f.Requested)
 	if verdictQ > 0 && perr != nil {
 		// a string that matches a registered glob but is not a URI at all (e.g. "http://localhost:8080.evil/cb": invalid
 		// port) cannot be redirected to by anybody; refusing it is no loss of completeness
 		res.Label("grey:model-allowed-but-not-a-uri")
 		res.Grey = true
 	}
-	if verdictQ > 0 && perr == nil && c.ErrPath == "none" && contains(cl.ResponseTypes, c.ResponseType) && c.ResponseType != "" {
+	if verdictQ > 0 && perr == nil && f.ErrPath == "none" && contains(cl.ResponseTypes, f.ResponseType) && f.ResponseType != "" {
 		res.Label("must-deliver", "allow:"+reasonQ)
 		ok := false
 		if final != nil && final.Panic == nil {
-			if final.IsRedirect() && sameTarget(final.Location(), c.Requested) {
+			if final.IsRedirect() && sameTarget(final.Location(), f.Requested) {
 				p := vkit.DeliveredParams(final.Location())
 				ok = p.Get("code") != "" || p.Get("id_token") != ""
-			} else if final.Status == 200 && c.ResponseMode == "form_post" {
-				a, found := formAction(final.Body)
-				ok = found && (sameTarget(a, c.Requested) || a == "#ZgotmplZ")
+			} else if final.Status == 200 && f.ResponseMode == "form_post" {
+				targets, forms := pageTargets(final.Body)
+				for _, a := range targets {
+					ok = ok || (forms > 0 && (sameTarget(a, f.Requested) || a == "#ZgotmplZ"))
+				}
+				if brokenCB {
+					ok = true // the page was cut off by the writer: what did not arrive is not judged
+					res.Label("complete-not-judged:page-cut-off")
+				}
 			}
 		}
 		if !ok {
@@ -650,7 +1102,7 @@ func run(c Case) *vkit.Result {
 			if final != nil {
 				d = final.Describe()
 			}
-			res.Fail("C03:complete:"+reasonQ, "acceptable request (%s) did not reach the redirect URI %q: %s", reasonQ, c.Requested, d)
+			res.Fail("C03:complete:"+reasonQ, "flow %d: acceptable request (%s) did not reach the redirect URI %q: %s", idx, reasonQ, f.Requested, d)
 		}
 	} else if verdictQ == 0 {
 		res.Grey = true
@@ -659,7 +1111,7 @@ func run(c Case) *vkit.Result {
 
 	// the same guarantee through the public building blocks a custom Server / validator uses:
 	// the error the validator returns for a refused URI must never be turned into a redirect
-	directAPI(res, c, &cl, sut)
+	directAPI(res, f, &cl, sut)
 
 	path := "direct-error"
 	if toLogin {
@@ -675,19 +1127,22 @@ func run(c Case) *vkit.Result {
 			}
 		}
 	}
-	res.Label("path:"+path, "rel:"+c.Relation, "err:"+c.ErrPath, "router:"+c.Router)
-	res.NonTrivial = !contains(cl.RedirectURIs, c.Requested) || (c.ErrPath != "none" && toLogin)
+	res.Label("path:"+path, "rel:"+f.Relation, "err:"+f.ErrPath, "router:"+sut.Spec.Router)
 	regKinds := []string{}
 	for _, r := range cl.RedirectURIs {
 		regKinds = append(regKinds, strings.SplitN(r, ":", 2)[0])
 	}
 	sort.Strings(regKinds)
-	res.Key = fmt.Sprintf("%s|%s|dev=%v|globs=%v|%v|%s|%s|%s|%s|%s|%s|v=%d", c.Router, cl.AppType, cl.DevMode, cl.UseGlobs, regKinds, c.Relation, c.ResponseType, c.ResponseMode, c.ErrPath, path, reasonQ, verdictQ)
-	res.Info = map[string]any{"verdict": verdictQ, "reason": reasonQ, "path": path, "effective": effective}
-	return res
+	return flowOut{
+		key:        fmt.Sprintf("%s|%s|dev=%v|globs=%v|%v|%s|%s|%s|%s|%s|%s|v=%d", sut.Spec.Router, cl.AppType, cl.DevMode, cl.UseGlobs, regKinds, f.Relation, f.ResponseType, f.ResponseMode, f.ErrPath, path, reasonQ, verdictQ),
+		path:       path,
+		verdict:    verdictQ,
+		nonTrivial: !contains(cl.RedirectURIs, f.Requested) || (f.ErrPath != "none" && toLogin),
+		info:       map[string]any{"verdict": verdictQ, "reason": reasonQ, "path": path, "effective": effective},
+	}
 }
 
-func directAPI(res *vkit.Result, c Case, cl *vkit.ClientSpec, sut *vkit.SUT) {
+func directAPI(res *vkit.Result, c Flow, cl *vkit.ClientSpec, sut *vkit.SUT) {
 	defer func() {
 		if p := recover(); p != nil {
 			res.Fail("C03:panic@"+vkit.FirstLibFrame(string(debug.Stack())), "direct API panic: %v", p)
